@@ -5,6 +5,7 @@ import (
 	"fmt"
 	"github.com/trustbloc/sidetree-go/pkg/canonicalizer"
 	"github.com/trustbloc/sidetree-go/pkg/versions/1_0/operationparser"
+	"strings"
 
 	"github.com/trustbloc/sidetree-go/pkg/commitment"
 	"github.com/trustbloc/sidetree-go/pkg/jws"
@@ -310,6 +311,10 @@ func c04Chain(c *fw.Case) {
 		}
 		if r.Chance(1, 3) {
 			spec.AnchorFrom, spec.AnchorUntil = int64(r.Range(1, 1000)), int64(r.Range(1000, 2000))
+		}
+		if r.Chance(1, 3) {
+			// the optional key id header is free text: fragments, DID URLs, long values
+			spec.Headers = map[string]interface{}{"alg": spec.Signer.Alg(), "kid": fw.Pick(r, []string{"key-1", "#update-key", "did:example:123#key-1", strings.Repeat("k", 80), "key with blanks", "cl\u00e9"})}
 		}
 		if r.Chance(1, 4) {
 			// the signed data may also name the reveal value (an optional member of the signed-data models): still well-formed
